@@ -13,7 +13,7 @@ ASSUMPTIONS = ["words range over a small alphabet with a non-punctuation word, c
                "membership in the punctuation classes is judged by the harness's own copy of the documented lists",
                "all tree shapes E1(m, n) inside the bound, hence punctuation at any depth/position, consecutive punctuation, "
                "punctuation-only constituents and unary nodes over punctuation"]
-OUTSIDE = ["larger trees", "words outside the alphabet"]
+OUTSIDE = ["tokens without a POS tag (label None)", "larger trees", "words outside the alphabet"]
 NAMES = ["punctuation_verylow", "punctuation_root", "punctuation_symetrify"]
 
 
